@@ -188,6 +188,20 @@ def distinct_above(case, d):
     return len(set(vals)) == len(vals)
 
 
+def non_monotone(case, d):
+    """a sum criterion over data with a negative above-threshold value: adding pixels can turn it false"""
+    ctx = preds.Ctx(case, d)
+    return any(c[0] == 'sum' for c in case.get('crits', [])) and \
+        any(x is not None and ctx.minv < x < 0 for x in case['k'])
+
+
+def components_map(case, d, st, sigma):
+    """connected components of the above-threshold pixels in the run's own adjacency, as sets of mapped pixels
+    (the trunk regions before the final drop of failing parentless leaves are exactly these, theorem C03_trunks)"""
+    ctx = preds.Ctx(case, d)
+    return sorted(tuple(sorted(sigma[p] for p in comp)) for comp in ctx.components(ctx.kept))
+
+
 def transform_case(case, tr, rng_params):
     """returns (new case, sigma: old flat index -> new flat index) or None if not applicable"""
     shape = tuple(case['shape'])
@@ -331,12 +345,27 @@ def compare_transformed(res, base_case, d0, st0, tr, name):
             res['pred'].append('%s changes the hierarchy (distinct values): %r -> %r'
                                % (name, flat_map_regions(st0.iobs, sigma), flat_map_regions(st2.iobs, ident)))
     else:
+        msgs = []
         if trunk_regions(st0.iobs, sigma) != trunk_regions(st2.iobs, ident):
-            res['pred'].append('%s changes the trunk regions' % name)
+            msgs.append('%s changes the trunk regions' % name)
         if assigned(st0.iobs, sigma) != assigned(st2.iobs, ident):
-            res['pred'].append('%s changes the set of assigned pixels' % name)
+            msgs.append('%s changes the set of assigned pixels' % name)
         if pc.no_pruning(base_case) and n_leaves(st0.iobs) != n_leaves(st2.iobs):
             res['pred'].append('%s changes the number of leaves (no pruning): %d -> %d' % (name, n_leaves(st0.iobs), n_leaves(st2.iobs)))
+        # known finding K5 / K6: with equal values AND a criterion that can turn false as a structure grows
+        # (pruning.min_sum on negative data) whether an isolated region survives depends on the order in
+        # which equal values are processed.  Signature: ties, a sum criterion, a negative above-threshold
+        # value, both runs agree with the model on their own recorded orders, and the connected components
+        # (regions before the final drop of failing parentless leaves) still correspond.
+        if msgs and non_monotone(base_case, d0) and not res['corr'] and \
+                pc.regions(st0.iobs) == pc.regions(st0.mobs) and pc.regions(st2.iobs) == pc.regions(st2.mobs) and \
+                components_map(base_case, d0, st0, sigma) == components_map(c2, d2, st2, ident):
+            fid = 'K5' if name.startswith('cyclic') else 'K6'
+            res['known'].append((fid, 'with equal values and min_sum on negative data, which isolated regions survive depends on the '
+                                      'processing order of equal values (np.argsort), which is not equivariant under shifts / axis relabelling'))
+            res['tags'].append(fid)
+        else:
+            res['pred'] += msgs
 
 
 def eval_C16(item):
